@@ -122,7 +122,7 @@ def compare(case, impl, model):
     return f"different number of segments impl={len(a)} model={len(b)}"
 
 
-DIG = re.compile(r"W\{ss=(\d+) pend=\[([^\]]*)\] b=\[(.*)\] nm=(\d+) nw=(\d+) hs=(\d+)")
+DIG = re.compile(r"W\{ss=(\d+) pend=\[([^\]]*)\] b=\[(.*)\] fd=\[([^\]]*)\] nm=(\d+) nw=(\d+) hs=(\d+)")
 NOTICE = re.compile(r"F\((\d+),(\d+),(\d+)\)")
 
 
@@ -142,7 +142,8 @@ def snapshot(seg):
     for tok in seg.split():
         if tok.startswith("pu:"):
             notices = [int(n[1]) for n in NOTICE.findall(tok)]
-    return pend, unc, notices
+    free = {int(e.split(":")[0]): int(e.split(":")[1]) for e in m.group(4).split(",")} if m.group(4) else {}
+    return pend, unc, notices, free
 
 
 def oracle(case, impl, judge):
@@ -173,7 +174,7 @@ def _mirror(case, impl):
         s = snapshot(seg)
         if s is None:
             return f"step {i}: unparsable digest"
-        pend, unc, notices = s
+        pend, unc, notices, free = s
         held = pend + [j for v in unc.values() for j in v]
         if len(set(held)) != len(held):
             return f"step {i} ({op}): a job is held twice: {sorted(held)}"
@@ -189,6 +190,9 @@ def _mirror(case, impl):
             return f"step {i} ({op}): DeliveryConfirmed notices {sorted(notices)} for confirmed jobs {sorted(left)}"
         if not dc and notices:
             return f"step {i} ({op}): unexpected DeliveryConfirmed"
+        if pend and any(v > 0 for v in free.values()):
+            w = [k for k, v in free.items() if v > 0]
+            return f"step {i} ({op}): jobs {pend} wait in the pending pool although worker(s) {w} have free demand (C44_dispatch)"
         confirmed |= left
         seen |= entered
         held_prev = held
